@@ -70,7 +70,14 @@ def run(ctx):
         if o["inconclusive"]:
             res.inconclusive += 1
             res.inconclusive_notes.append(o["inconclusive"])
-    res.rule = ("(a) enumeration of command interleavings: 2-3 connections with scripts over {PASS good/bad, NICK x/y, USER, "
+    # (d) the widest window between "session declared over" and "session task ends": a stuck session that is KILLed /
+    # closed while somebody claims its nickname
+    common.run_stuck(ctx, res, sigs=("stuck:claimant-erased", "stuck:claimant-gated", "stuck:claimant-lost",
+                                      "stuck:claimant-identity", "stuck:claimant-deaf", "stuck:claimant-closed",
+                                      "stuck:users", "stuck:inv:I6", "stuck:inv:I7"))
+    res.rule = ("(d) stuck sessions (a client that stopped reading, owed ~10 MB) ended by KILL / close / reset while its "
+                "nickname is claimed: the new owner stays the owner; "
+                "(a) enumeration of command interleavings: 2-3 connections with scripts over {PASS good/bad, NICK x/y, USER, "
                 "CAP LS/END, speak-as-self, JOIN, rename, QUIT, close} contending for 1-2 nicknames, with and without a server "
                 "password; all interleavings of the script pairs (thorough) or a seeded sample of 40 per pair (quick); after "
                 "every step: registered users == connections welcomed under that nick and still open, never-welcomed "
